@@ -19,7 +19,7 @@ BUDGET = {
     ("C20", "thorough"): dict(search=4000000, san=160000, det=5000, spaces=[], san_spaces=["stress"]),
     ("C03", "quick"): dict(search=80000, san=3000, det=400, spaces=["write"]),
     ("C03", "thorough"): dict(search=2000000, san=80000, det=5000, spaces=["write"], san_spaces=["write"]),
-    ("C19", "quick"): dict(search=100000, san=5000, det=400, spaces=["trunc", "flip", "alloc", "read", "stress"], san_spaces=["stress"]),
+    ("C19", "quick"): dict(search=100000, san=5000, det=400, spaces=["trunc", "flip2", "alloc", "read", "stress"], san_spaces=["stress"]),
     ("C19", "thorough"): dict(search=2500000, san=150000, det=5000, spaces=["trunc", "flip", "alloc", "read", "write", "stress"], san_spaces=["trunc", "flip", "alloc", "stress"]),
 }
 
@@ -35,6 +35,7 @@ ASSUME = [
 SPACE_DESC = {
     "trunc": "premature EOF at every byte offset of every corpus file",
     "flip": "one flipped bit at every bit position of every corpus file",
+    "flip2": "one flipped bit at two of the eight bit positions (chosen by the seed) of every byte of every corpus and feature file; the thorough tier flips all eight",
     "alloc": "the k-th allocation call returns NULL, for every k up to the number of allocations of the fault-free run, for every corpus file",
     "read": "the k-th read of the input fails with EIO, for every k of the fault-free run, for every corpus file",
     "stress": "every (family, size knob) pair of the stress family once, fault-free, including the largest knobs (10^5-byte tokens, 196 417 case labels in worst-case AVL order, 4097 names per scope)",
@@ -147,7 +148,6 @@ def run(prop, tier):
         add("search", exe, ["--hashes", "@OUT@.idx", "--hashes-below", str(det)], b["search"], nplain, seed)
         if exe_san:
             add("san", exe_san, [], b["san"], nsan, seed + 104729)
-        res_a = run_jobs(jobs)
         jobs2 = []
         jobs_bak = jobs
         jobs = jobs2
@@ -161,7 +161,10 @@ def run(prop, tier):
             out = os.path.join(work, "gate-%d.json" % w)
             gate.append(("gate", out, [exe, "run", "--prop", prop, "--seed", str(seed), "--start", str(w), "--stride", "3", "--count", str((det - w + 2) // 3),
                                       "--out", out, "--hashes", out + ".idx", "--max-violations", "0"] + common[:8] + ["--replay-dir", os.path.join(work, "gate-replays")]))
-        res_b = run_jobs(jobs2 + gate)
+        # one pool for everything: the long sanitized workers overlap with the enumerated spaces
+        res_all = run_jobs(jobs_bak + jobs2 + gate)
+        res_a = res_all[:len(jobs_bak)]
+        res_b = res_all[len(jobs_bak):]
         jobs = jobs_bak + jobs2
 
         rc = 0
@@ -239,6 +242,7 @@ def run(prop, tier):
             "exhaustive": False,
             "exhaustively_enumerated_subspaces": exhaustive_sub,
             "runs_by_configuration": per_kind,
+            "slowest_worker_seconds_by_configuration": dict(JOB_SECONDS),
             "simulated_steps": tot.get("steps", 0),
             "simulated_time_measure": "instrumented function entries of the real code (-finstrument-functions)",
             "runs_per_hour": int(tot.get("runs", 0) / max(wall, 0.001) * 3600),
@@ -269,6 +273,9 @@ def run(prop, tier):
         shutil.rmtree(work, ignore_errors=True)
 
 
+JOB_SECONDS = {}
+
+
 def run_jobs(jobs):
     """run at most NCPU worker processes at a time; returns [(rc, output)] in order"""
     res = [None] * len(jobs)
@@ -281,6 +288,8 @@ def run_jobs(jobs):
             lf = open(out + ".log", "w+")
             p = subprocess.Popen(cmd, stdout=lf, stderr=subprocess.STDOUT, text=True)
             p.logfile = lf
+            p.t0 = time.time()
+            p.kind = kind
             running[nxt] = p
             nxt += 1
         done = [i for i, p in running.items() if p.poll() is not None]
@@ -292,5 +301,6 @@ def run_jobs(jobs):
             p.logfile.seek(0)
             out = p.logfile.read()
             p.logfile.close()
+            JOB_SECONDS[p.kind] = max(JOB_SECONDS.get(p.kind, 0), round(time.time() - p.t0, 1))
             res[i] = (p.returncode, out)
     return res
